@@ -112,3 +112,9 @@ type AsmOp struct {
 
 // newBoolJunk: an arbitrary truth value (undefined flag bits).
 func (x *Exec) newBoolJunk() *smt.Term { return x.junk(0) }
+
+// t3src: a source string the generated encoder may hand to the native quoter.
+type t3src struct {
+	length   *smt.Term
+	consumed *smt.Term
+}
